@@ -64,6 +64,11 @@ pub fn produce(stream: &[Ev], o: &Opts) -> Reports {
         let mut w = writer::Normalize::<W, _>::new(writer::Libtest::<W, _>::raw(sink.clone()));
         let cli = writer::libtest::Cli { format: None, show_output: o.show_output, report_time: o.report_time.then_some(writer::libtest::ReportTime::Plain), nightly: None };
         for e in stream {
+            // Libtest `print!`s Log events to the process's stdout (captured by libtest's own
+            // harness in real use): not fed here, stdout carries the worker protocol.
+            if matches!(super::decode(e).what, super::What::Log(_)) {
+                continue;
+            }
             block_on(w.handle_event(e.clone(), &cli));
         }
         s(&sink)
